@@ -95,12 +95,12 @@ VAM_HIST = "all histories of 3 API calls (AllocateMemory in 4-6 flag/type varian
 VDEF = "defragmentation through the public API: custom TLSF pool with explicit 256-byte blocks (max 3), four allocations of symbolic sizes spilling into a second block (two optionally persistently mapped), one or two holes freed, full run of up to 3 passes (quick: every move copied; thorough: copy/ignore/destroy per pass, 5 allocations), both algorithms"
 
 checks["C02"] = {"level": "model_checking",
- "jobs": [vjob("Verif_C02_Hist", [0], [0, 1, 2, 32, 64]), vjob("Verif_C02_VDefrag", [0, 32], [0, 32, 64, 96])],
+ "jobs": [vjob("Verif_C02_Hist", [0], [0, 1, 2, 32, 64]), vjob("Verif_C02_VDefrag", [0, 32, 192], [0, 32, 64, 96, 128, 192, 224])],
  "bounds_quick": VAM_HIST + "; " + VDEF + ". After every call: memory object live on the device and of a permitted type, range inside the object, requested and pool-minimum alignment, pairwise disjoint within a memory object, dedicated allocations alone at offset 0.",
  "bounds_thorough": "4 calls; device variants granularity 1024 / atom 64; custom pools (4 variants incl. linear) and multi-allocations of 2",
  "assumptions": VAM_ASSUME, "outside": VAM_OUT}
 checks["C04"] = {"level": "model_checking",
- "jobs": [vjob("Verif_C04_Hist", [0], [0, 32, 64]), vjob("Verif_C04_VDefrag", [0], [0, 32])],
+ "jobs": [vjob("Verif_C04_Hist", [0, 4], [0, 4, 32, 64]), vjob("Verif_C04_VDefrag", [0], [0, 32])],
  "bounds_quick": VAM_HIST + "; " + VDEF + ". After every call CalculateStatistics (per type, per heap, total: block count/bytes, allocation count/bytes, min/max) and HeapBudget (statistics, usage) are compared with the simulated device's live objects and the harness' live set. Fault sequences: see C10 (the same equalities are asserted after every injected failure).",
  "bounds_thorough": "4 calls, pools, multi-allocations",
  "assumptions": VAM_ASSUME + ["memory-budget extension off (usage == block bytes)"], "outside": VAM_OUT + "; JSON rendering (BuildStatsString)"}
@@ -108,7 +108,7 @@ checks["C07"]["jobs"].append(vjob("Verif_C07_VDefrag", [0, 32], [0, 32, 64, 96])
 checks["C07"]["bounds_quick"] += " vam layer: " + VDEF
 checks["C07"]["assumptions"] = checks["C07"]["assumptions"] + VAM_ASSUME
 checks["C08"] = {"level": "model_checking",
- "jobs": [vjob("Verif_C08_Kernels", [0], [0]), vjob("Verif_C08_Maps", [2, 34, 98], [2, 34, 98, 0, 32]), vjob("Verif_C08_VDefrag", [0], [0, 32])],
+ "jobs": [vjob("Verif_C08_Kernels", [0], [0]), vjob("Verif_C08_Maps", [2, 34, 98, 226], [2, 34, 98, 226, 0, 32]), vjob("Verif_C08_VDefrag", [0], [0, 32])],
  "bounds_quick": "kernel at full width: minimum alignment of a memory type for all flag words and atom sizes 2^0..2^12; scripts on two allocations sharing a block (coherent and non-coherent type, atom 64): 0 or 4 map/unmap pairs, 0 or 4 allocate/free pairs (drives the mapping hysteresis over its 7-event thresholds), then one of 5 final operation groups (map/unmap, nested maps of two allocations, map + free of the neighbour, free + map of the neighbour, persistently mapped allocation); flush/invalidate with symbolic offset and size (any positive size, WholeSize) on either allocation; defragmentation run; every driver call is checked by the simulated device against the valid-usage rules of the property, flush ranges additionally against the other live allocations",
  "bounds_thorough": "0/3/4 pairs, all device variants",
  "assumptions": VAM_ASSUME + ["caller obligations: flush/invalidate only while the allocation is mapped, balanced Map/Unmap, offset >= 0"], "outside": VAM_OUT + "; bind offsets chosen by the caller; image binds"}
@@ -123,7 +123,7 @@ checks["C10"] = {"level": "fault_enumeration",
  "bounds_thorough": "history of 2 calls, 2 faults everywhere, atom-64 variant",
  "assumptions": VAM_ASSUME + ["fault kinds: VK_ERROR_OUT_OF_DEVICE_MEMORY for allocate/bind, VK_ERROR_MEMORY_MAP_FAILED for map, VK_ERROR_OUT_OF_HOST_MEMORY for create"], "outside": VAM_OUT + "; faults in GetMemoryRequirements2 / image paths"}
 checks["C11"] = {"level": "model_checking",
- "jobs": [vjob("Verif_C11_Hist", [4, 8, 36], [4, 8, 12, 36, 68])],
+ "jobs": [vjob("Verif_C11_Hist", [4, 8, 36], [4, 8, 12, 36, 68]), vjob("Verif_C11_OverBudget", [0], [0, 4])],
  "bounds_quick": VAM_HIST + " on devices with heap size limits {512,1024}, maxMemoryAllocationCount 2, and custom pools (min/max block counts); after every call: device bytes per heap <= limit, live memory objects <= count limit, pool block counts within [min,max], no AllocateMemory driver call during a never-allocate request, a dedicated request owns an object of exactly the requested size",
  "bounds_thorough": "4 calls, multi-allocations",
  "assumptions": VAM_ASSUME, "outside": VAM_OUT + "; the 'concurrent allocations racing for the last bytes' clause (no schedule exploration was built, see C12)"}
@@ -131,17 +131,17 @@ checks["C13"]["jobs"] += [vjob("Verif_C13_Hist", [0, 96], [0, 32, 64, 96])]
 checks["C13"]["bounds_quick"] += " Allocator level: " + VAM_HIST + " with every call inside a panic catcher; refusals compared with a snapshot of device objects, live allocations and counters; CreatePool with every memory type index in [-2,40]."
 checks["C13"]["assumptions"] = checks["C13"]["assumptions"] + VAM_ASSUME
 checks["C14"] = {"level": "model_checking",
- "jobs": [vjob("Verif_C14_Maps", [2, 34], [2, 34, 0, 32]), vjob("Verif_C14_VDefrag", [0], [0, 32])],
+ "jobs": [vjob("Verif_C14_Maps", [2, 34], [2, 34, 0, 32]), vjob("Verif_C14_VDefrag", [0, 128], [0, 32, 128, 160])],
  "bounds_quick": "the C08 scripts (hysteresis-crossing map/unmap and allocate/free sequences on allocations sharing a block) and the defragmentation run: every Map must return base(Memory()) + FindOffset() of the allocation's current location with the object mapped in the driver; after every event the memory behind persistent mappings and outstanding user maps is still mapped; persistently mapped allocations stay mapped after relocation",
  "bounds_thorough": "0/3/4 pairs, device variants",
  "assumptions": VAM_ASSUME + ["stores through the pointer are modelled as address ranges (pointer value + size), not simulated"], "outside": VAM_OUT}
 checks["C15"]["jobs"].append(vjob("Verif_C15_VDefrag", [0], [0, 32]))
 checks["C15"]["bounds_quick"] += " vam layer: final statistics of a complete run equal the moves carried out (" + VDEF + ")"
 checks["C19"] = {"level": "model_checking",
- "jobs": [vjob("Verif_C19_Select", [0, 12], [0, 1, 4, 8, 12, 13, 2])],
+ "jobs": [vjob("Verif_C19_Select", [0, 12], [0, 1, 4, 8, 12, 13, 2]), vjob("Verif_C19_Fallback", [0], [0, 2])],
  "bounds_quick": "memory type table of 3 types with symbolic 8-bit property flags (device-local, host-visible, coherent, cached, lazily-allocated, protected, AMD coherent/uncached), symbolic caller mask, requirement mask, usage mode 0..4, host-access flags, required and preferred flags, optional symbolic resource-usage word; discrete and integrated device, with and without the AMD extension; every clause of the statement is asserted against a specification written from the property text",
  "bounds_thorough": "tables of 4, 5 and 6 types",
- "assumptions": ["property flags restricted to the 8 defined low bits", "single heap", "the fallback clause (other eligible types tried after out-of-memory) is exercised by C10's fault injection only for the first type"], "outside": "more than 6 memory types; the out-of-memory fallback order"}
+ "assumptions": ["property flags restricted to the 8 defined low bits", "single heap", "fallback clause: request with two eligible host-visible types sharing a heap, every AllocateMemory call may fail (up to 8 faults): a failing request must have attempted both types"], "outside": "more than 6 memory types; fallback among more than two eligible types"}
 checks["C20"] = {"level": "model_checking",
  "jobs": [vjob("Verif_C20_Teardown", [0, 16], [0, 16, 1, 4])],
  "bounds_quick": "histories of 3 calls (block and dedicated allocations, pool creation in 2 variants, frees), then everything is freed in ascending or descending order - or one chosen allocation is deliberately leaked - then pools and allocator are destroyed; device variant with an excluded (AMD device-coherent) memory type; assertions: retained blocks per list <= max(minBlockCount,1), teardown succeeds and leaves no device memory and no mapping, a leak is reported as an error and its memory is not released, pool identities distinct, no invalid driver call",
